@@ -172,6 +172,118 @@ pub const RUBY_SNIPPETS: &[&str] = &[
   "# comment line",
 ];
 
+
+pub const TSX_SNIPPETS: &[&str] = &[
+  "let a = 1 + 2;",
+  "const el = <div className=\"box\">héllo 🌍</div>;",
+  "function App(props: { name: string }) {\n  return <p>{props.name}</p>;\n}",
+  "console.log(total);",
+  "const list = items.map((i) => <li key={i}>{i + 1}</li>);",
+  "foo(1, 2);",
+  "export default App;",
+  "if (a == b) {\n  foo(a, b);\n}",
+];
+
+pub const JSON_SNIPPETS: &[&str] = &[
+  "{\"a\": 1, \"b\": [1, 2, 3]}",
+  "{\n  \"name\": \"héllo 🌍\",\n  \"nested\": {\"x\": true, \"y\": null}\n}",
+  "[1, 2, {\"k\": \"v\"}]",
+];
+
+pub const LUA_SNIPPETS: &[&str] = &[
+  "local a = 1 + 2",
+  "print(total)",
+  "function add(x, y)\n  return x + y\nend",
+  "local t = { x = 1, y = 2 }",
+  "for i = 1, 10 do\n  print(i)\nend",
+  "if a == b then\n  foo(a, b)\nend",
+  "-- comment line",
+  "local s = \"héllo 🌍\"",
+  "foo(1, 2)",
+];
+
+pub const BASH_SNIPPETS: &[&str] = &[
+  "a=1",
+  "echo \"héllo 🌍\"",
+  "if [ \"$a\" = \"$b\" ]; then\n  echo same\nfi",
+  "for i in 1 2 3; do\n  echo $i\ndone",
+  "add() {\n  echo $(($1 + $2))\n}",
+  "# comment line",
+  "ls -la | grep foo",
+  "export PATH=\"$PATH:/x\"",
+];
+
+pub const KOTLIN_SNIPPETS: &[&str] = &[
+  "val a = 1 + 2",
+  "fun add(x: Int, y: Int): Int {\n    return x + y\n}",
+  "fun main() {\n    println(\"héllo 🌍\")\n}",
+  "class Point(val x: Int, val y: Int)",
+  "// comment line",
+  "val s = foo(1, 2)",
+];
+
+pub const CPP_SNIPPETS: &[&str] = &[
+  "int add(int x, int y) {\n  return x + y;\n}",
+  "class Point {\npublic:\n  int x;\n  int y;\n};",
+  "int main() {\n  int a = 1 + 2;\n  std::cout << a;\n  return 0;\n}",
+  "const char *name = \"héllo 🌍\";",
+  "// comment line",
+  "namespace ns {\nint z = 3;\n}",
+  "#include <vector>",
+];
+
+pub const CSHARP_SNIPPETS: &[&str] = &[
+  "class A {\n  int Add(int x, int y) {\n    return x + y;\n  }\n}",
+  "class B {\n  string name = \"héllo 🌍\";\n}",
+  "using System;",
+  "// comment line",
+  "class C {\n  void Z() {\n    int z = 3;\n    Bar(Foo(3, 4), z);\n  }\n}",
+];
+
+pub const PHP_SNIPPETS: &[&str] = &[
+  "<?php\n$a = 1 + 2;",
+];
+
+pub const SCALA_SNIPPETS: &[&str] = &[
+  "val a = 1 + 2",
+  "def add(x: Int, y: Int): Int = x + y",
+  "object Main {\n  def main(args: Array[String]): Unit = {\n    println(\"héllo 🌍\")\n  }\n}",
+  "class Point(val x: Int, val y: Int)",
+  "// comment line",
+];
+
+pub const SWIFT_SNIPPETS: &[&str] = &[
+  "let a = 1 + 2",
+  "func add(x: Int, y: Int) -> Int {\n    return x + y\n}",
+  "print(\"héllo 🌍\")",
+  "struct Point {\n    var x: Int\n    var y: Int\n}",
+  "// comment line",
+  "let s = foo(1, 2)",
+];
+
+pub const YAML_SNIPPETS: &[&str] = &[
+  "a: 1",
+  "name: \"héllo 🌍\"",
+  "list:\n  - 1\n  - 2\n  - x: y",
+  "nested:\n  k: v\n  other: [1, 2]",
+  "# comment line",
+];
+
+pub const HASKELL_SNIPPETS: &[&str] = &[
+  "add :: Int -> Int -> Int\nadd x y = x + y",
+  "main :: IO ()\nmain = putStrLn \"hello\"",
+  "-- comment line",
+  "z = 3",
+];
+
+pub const ELIXIR_SNIPPETS: &[&str] = &[
+  "a = 1 + 2",
+  "IO.puts(\"héllo 🌍\")",
+  "defmodule M do\n  def add(x, y) do\n    x + y\n  end\nend",
+  "# comment line",
+  "foo(1, 2)",
+];
+
 pub const CORPORA: &[LangCorpus] = &[
   LangCorpus {
     lang: "TypeScript",
@@ -270,6 +382,17 @@ pub const CORPORA: &[LangCorpus] = &[
     rewrites: &[("$A + $B", "$B + $A"), ("foo($A, $B)", "foo($B, $A)")],
     probes: &["$A + $B", "foo($$$ARGS)"],
   },
+  LangCorpus { lang: "Tsx", ext: "tsx", snippets: TSX_SNIPPETS, rewrites: &[("$A + $B", "$B + $A"), ("console.log($A)", "log($A)")], probes: &["$A + $B", "$F($$$ARGS)"] },
+  LangCorpus { lang: "Lua", ext: "lua", snippets: LUA_SNIPPETS, rewrites: &[("$A + $B", "$B + $A"), ("print($A)", "log($A)")], probes: &["$A + $B", "$F($$$ARGS)"] },
+  LangCorpus { lang: "Bash", ext: "sh", snippets: BASH_SNIPPETS, rewrites: &[("echo $A", "printf $A")], probes: &["echo $A"] },
+  LangCorpus { lang: "Kotlin", ext: "kt", snippets: KOTLIN_SNIPPETS, rewrites: &[("$A + $B", "$B + $A")], probes: &["$A + $B", "$F($$$ARGS)"] },
+  LangCorpus { lang: "Cpp", ext: "cpp", snippets: CPP_SNIPPETS, rewrites: &[("$A + $B", "$B + $A")], probes: &["$A + $B"] },
+  LangCorpus { lang: "CSharp", ext: "cs", snippets: CSHARP_SNIPPETS, rewrites: &[("$A + $B", "$B + $A")], probes: &["$A + $B", "$F($$$ARGS)"] },
+  LangCorpus { lang: "Scala", ext: "scala", snippets: SCALA_SNIPPETS, rewrites: &[("$A + $B", "$B + $A")], probes: &["$A + $B"] },
+  LangCorpus { lang: "Swift", ext: "swift", snippets: SWIFT_SNIPPETS, rewrites: &[("$A + $B", "$B + $A")], probes: &["$A + $B", "$F($$$ARGS)"] },
+  LangCorpus { lang: "Yaml", ext: "yml", snippets: YAML_SNIPPETS, rewrites: &[("a: $A", "b: $A")], probes: &["$K: $V"] },
+  LangCorpus { lang: "Haskell", ext: "hs", snippets: HASKELL_SNIPPETS, rewrites: &[("$A + $B", "$B + $A")], probes: &["$A + $B"] },
+  LangCorpus { lang: "Elixir", ext: "ex", snippets: ELIXIR_SNIPPETS, rewrites: &[("$A + $B", "$B + $A")], probes: &["$A + $B", "$F($$$ARGS)"] },
 ];
 
 pub fn corpus(lang: &str) -> &'static LangCorpus {
